@@ -64,10 +64,22 @@ static int create_node(const sqfs_tree_node_t *n, const char *name, int flags)
 
 	switch (n->inode->base.mode & S_IFMT) {
 	case S_IFDIR:
-		if (mkdir(name, 0755) && errno != EEXIST) {
-			fprintf(stderr, "mkdir %s: %s\n",
-				name, strerror(errno));
-			return -1;
+		if (mkdir(name, 0755)) {
+			struct stat sb;
+
+			if (errno != EEXIST) {
+				fprintf(stderr, "mkdir %s: %s\n",
+					name, strerror(errno));
+				return -1;
+			}
+
+			/* only an actual directory may be re-used, never
+			   a symlink that is already there */
+			if (lstat(name, &sb) != 0 || !S_ISDIR(sb.st_mode)) {
+				fprintf(stderr, "mkdir %s: exists and is "
+					"not a directory\n", name);
+				return -1;
+			}
 		}
 		break;
 	case S_IFLNK:
